@@ -744,6 +744,12 @@ fn collect_free_variables(expr: &SpannedExpr, vars: &mut Vec<String>, bound: &mu
                 vars.push(name.clone());
             }
         }
+        // `#field` is `inputs.field`: it reads the same `inputs` the function was defined under
+        Expr::InputReference(_) => {
+            if !bound.contains("inputs") {
+                vars.push(String::from("inputs"));
+            }
+        }
         Expr::Lambda { args, body } => {
             let mut new_bound = bound.clone();
             for arg in args {
